@@ -202,6 +202,16 @@ def _splice_headers(P, rep, prefix, key, doing, with_decision):
     def source(op):
         """-> (kind, id, field path) of a value taken out of an expanded segment"""
         r = ch.root(op, through_calls=False)
+        for _ in range(4):
+            # a value that went through a tuple (`let (a, t) = (x.address, x.t)`): step through  t = (p, q); t.i
+            if r[0] is None or not r[1] or r[1][0]["k"] != "field":
+                break
+            d0 = ch.single_def(r[0])
+            if not (d0 and d0[0] == "stmt" and d0[2]["k"] == "agg" and d0[2]["kind"].get("k") == "tuple" and r[1][0]["i"] < len(d0[2]["ops"])):
+                break
+            rest = r[1][1:]
+            r2 = ch.root(d0[2]["ops"][r[1][0]["i"]], through_calls=False)
+            r = (r2[0], list(r2[1]) + rest, r2[2])
         if r[0] is None:
             return None
         flds = MU.proj_fields(r[1])
